@@ -94,6 +94,15 @@ impl Prop for C08 {
         let vals = crate::feed::gen_signed(r, shape, len, scale, sign);
         let p_obs = *r.pick(&[0.0, 0.1, 0.5]);
         sc.events = single_schedule(r, &vals, p_obs, true);
+        // "for every view" includes a view that is a clone: in a quarter of the runs the replica is replaced by
+        // its own clone at 1-3 points (mostly during the warm-up) and the oracles simply continue on the clone
+        if tree.cloneable() && r.chance(0.25) {
+            for _ in 0..r.range(1, 3) {
+                let span = if r.chance(0.7) { (2 * ws_sum + 4).min(sc.events.len()) } else { sc.events.len() };
+                let at = r.below(span + 1);
+                sc.events.insert(at, Ev::F { r: 0 });
+            }
+        }
         sc.trees.push(tree);
         sc.set_int("shape", shape as i64);
         sc
@@ -246,6 +255,43 @@ impl Prop for C08 {
                         ready = true;
                     }
                 }
+                Ev::F { .. } => {
+                    if !spec.cloneable() {
+                        continue;
+                    }
+                    match try_clone(&root) {
+                        Ok(c) => {
+                            let old = std::mem::replace(&mut root, c);
+                            let _ = try_drop(old);
+                            out.stats.hit("ev.fork");
+                            if !ready {
+                                out.stats.hit("reach.clone_during_warmup");
+                            }
+                            // the clone must answer like the original did
+                            match try_last(&root) {
+                                Ok(o) => {
+                                    h.opt(o);
+                                    if ready && o.is_none() {
+                                        out.violation = Some(Violation::new("readiness_reverted", "", step, format!("{}: a clone taken after {} deliveries returns None although the original had reported a value", spec.show(), deliveries)));
+                                        break 'ev;
+                                    }
+                                    if !ready && deliveries == 0 && o.map(f64::to_bits) != initial.map(f64::to_bits) {
+                                        out.violation = Some(Violation::new("changed_while_starved", "", step, format!("{}: a clone of the never-updated view answers {:?}, the original answered {:?}", spec.show(), o, initial)));
+                                        break 'ev;
+                                    }
+                                }
+                                Err(_) => {
+                                    out.stats.hit("skip.panic");
+                                    break 'ev;
+                                }
+                            }
+                        }
+                        Err(_) => {
+                            out.stats.hit("skip.panic");
+                            break 'ev;
+                        }
+                    }
+                }
                 Ev::O { k, .. } => {
                     out.stats.add("ev.observe", k as u64);
                     for _ in 0..k {
@@ -302,7 +348,7 @@ impl Prop for C08 {
     }
 
     fn rule(&self) -> String {
-        "Mode 'stall' (runs below the systematic bound): every wrapper (32 unary views, PFE, EFT) x N in {1..9,16,33,64} x stall length d in {0,1,N,random 0..2N+3}, built directly over Stall(d,Echo): the root's first inner value arrives at delivery d+1, so the documented warm-up table (two-sided: None before, Some from) is asserted in values delivered by the child. Mode 'tree': random trees of depth 1-3 with combinators, stalled leaves and stalled inner nodes; a stand-alone twin of the root's child tells when the root is starved and how many values the child has delivered, so the warm-up table is asserted for every listed root over any inner subtree as well. Oracles after construction and after every event: readiness monotone, every reported value finite, answer bit-identical to the post-construction answer while the child has delivered nothing. Feeds: 14 workload shapes (constant, zeros, ties, zero-sum, volatile-then-flat, monotone, ...), scale 1e-3..1e6, lengths 1..3*(window sum)+40, 10% 1000-4000, thorough 1% 20k-100k. distinct = distinct (topology, event-kind schedule); non-trivial = at least one starved delivery was checked, or the warm-up table was evaluated after the child started delivering."
+        "Mode 'stall' (runs below the systematic bound): every wrapper (32 unary views, PFE, EFT) x N in {1..9,16,33,64} x stall length d in {0,1,N,random 0..2N+3}, built directly over Stall(d,Echo): the root's first inner value arrives at delivery d+1, so the documented warm-up table (two-sided: None before, Some from) is asserted in values delivered by the child. Mode 'tree': random trees of depth 1-3 with combinators, stalled leaves and stalled inner nodes; a stand-alone twin of the root's child tells when the root is starved and how many values the child has delivered, so the warm-up table is asserted for every listed root over any inner subtree as well. In a quarter of the runs the replica is replaced by its own clone at 1-3 points (mostly during the warm-up) and the oracles continue on the clone. Oracles after construction and after every event: readiness monotone, every reported value finite, answer bit-identical to the post-construction answer while the child has delivered nothing. Feeds: 14 workload shapes (constant, zeros, ties, zero-sum, volatile-then-flat, monotone, ...), scale 1e-3..1e6, lengths 1..3*(window sum)+40, 10% 1000-4000, thorough 1% 20k-100k. distinct = distinct (topology, event-kind schedule); non-trivial = at least one starved delivery was checked, or the warm-up table was evaluated after the child started delivering."
             .into()
     }
     fn assumptions(&self) -> Vec<String> {
